@@ -346,6 +346,9 @@ func (tg *target) cacheOp(t []string) (string, int, []string, []string) {
 	case "setdefault":
 		c.SetDefault(t[1], parseVal(t[2]))
 		return "-", 0, nil, nil
+	case "setdefexp":
+		c.SetDefaultExpiration(d(1))
+		return "-", 0, nil, nil
 	case "tick":
 		// the clock advances while the other threads are in the middle of their calls
 		vshim.Advance(atoi64(t[1]))
@@ -695,6 +698,36 @@ func genProgram(r *rng, kind string, focus string) *program {
 				}
 			}
 			p.threads = append(p.threads, ops)
+		}
+	case "settings":
+		// the default TTL changes while calls that use it are in flight: a call must use ONE default in force during
+		// the call (positive: now + default; below 1 ns: never), not a mixture of two readings
+		if !isCache {
+			break
+		}
+		p.dflt = 3_600_000_000_000
+		p.prefill = nil
+		for i := range p.threads {
+			var ops []string
+			for j := 0; j < 1+r.intn(2); j++ {
+				k := key()
+				if i%2 == 0 {
+					switch r.intn(4) {
+					case 0:
+						ops = append(ops, fmt.Sprintf("setdefault %s %s", k, v()))
+					case 1:
+						ops = append(ops, fmt.Sprintf("set %s %s %d", k, v(), int64(-1_000_000_000)))
+					case 2:
+						ops = append(ops, fmt.Sprintf("getorset %s %s %d", k, v(), int64(-1_000_000_000)))
+					default:
+						ops = append(ops, fmt.Sprintf("getandset %s %s %d", k, v(), int64(-1_000_000_000)))
+					}
+					ops = append(ops, "getexp "+k)
+				} else {
+					ops = append(ops, fmt.Sprintf("setdefexp %d", []int64{-2_000_000_000, 0, -1, 3_600_000_000_000, 50}[r.intn(5)]))
+				}
+			}
+			p.threads[i] = ops
 		}
 	case "ticks":
 		// the clock advances during the concurrent phase: entries expire between two steps of a call.  Only calls
@@ -1433,6 +1466,51 @@ func (o *outcome) monitors() []string {
 						strings.Contains(f, " "+p[1]+":"+p[2]+"]") || strings.Contains(f, "["+p[1]+":"+p[2]+"]") {
 						bad = append(bad, "CALLBACK: fired for a value that is still retrievable: "+c)
 					}
+				}
+			}
+		}
+	}
+	// default TTL replaced while calls that use it are in flight (C09, programs of focus=settings: threads made of
+	// `setdefexp` only).  Set reads the default before it stores, so these histories need not be linearizable
+	// against the atomic TTL semantics; what must hold for every value stored with the DefaultExpiration sentinel:
+	// it is there (nobody deletes, the clock stands still) and its instant is "never" or clock + D for a positive
+	// default D that was in force at some moment of the run - never a mixture of two readings
+	if isCache && o.problem == "" {
+		settingsProg := false
+		defaults := map[int64]bool{o.prog.dflt: true}
+		for _, th := range o.prog.threads {
+			for _, l := range th {
+				f := strings.Fields(l)
+				if f[0] == "setdefexp" {
+					settingsProg = true
+					defaults[atoi64(f[1])] = true
+				}
+			}
+		}
+		if settingsProg {
+			for _, h := range o.hist {
+				f := strings.Fields(h.op)
+				if f[0] != "getexp" {
+					continue
+				}
+				if !strings.Contains(h.res, "ok=true") {
+					bad = append(bad, "EXPIRY: a value stored with the default TTL is reported absent: "+h.op+" -> "+h.res)
+					continue
+				}
+				var e int64
+				for _, x := range strings.Fields(h.res) {
+					if strings.HasPrefix(x, "e=") {
+						e = atoi64(x[2:])
+					}
+				}
+				okE := e == 0
+				for d := range defaults {
+					if d > 0 && e == o.prog.now+d {
+						okE = true
+					}
+				}
+				if !okE {
+					bad = append(bad, fmt.Sprintf("EXPIRY: %s -> %s: the instant is neither 'never' nor clock + a default that was in force", h.op, h.res))
 				}
 			}
 		}
